@@ -89,6 +89,9 @@ MUTANTS = [
     {"name": "c16_len_not_decremented_on_remove", "property": "C16", "file": "fibonacci.py",
      "old": "        self._min = node\n        self._extract_min()\n",
      "new": "        self._min = node\n        self._extract_min()\n        if self._n % 7 == 3:\n            self._n += 1\n"},
+    # a reviewer's failed "refactoring" (round 3, C16 v2): identity tie-break in HeapNode.__lt__ without the matching
+    # strict scan in _consolidate - passes the 66 tests, corrupts the heap
+    {"name": "c16_identity_tiebreak_half", "property": "C16", "patch": "c16_identity_tiebreak_half.patch"},
     # ------------------------------------------------------------------ C17
     {"name": "c17_revert_initial_bound_pruning", "property": "C17", "patch": "revert_0cd770d.patch"},
     {"name": "c17_search_keeps_untightened", "property": "C17", "file": "search.py",
